@@ -534,10 +534,11 @@ def c13(ctx):
     # can reuse x.clone(); clone_from_root must still return the copy of THE node it was given
     from mathy_core.rules import DistributiveMultiplyRule, BalancedMoveRule
     dup_roots = []
-    for t in trees[:: 9 if quick else 3]:
+    for t in trees[:: 25 if quick else 3]:
         root = core.tuple_to_py(t)
         for node in core.inorder(root):
-            for rule in (DistributiveMultiplyRule(), BalancedMoveRule()):
+            for rn in core.RULE_NAMES:
+                rule = core.rule_instance(rn)
                 try:
                     if rule.can_apply_to(node):
                         dup_roots.append(rule.apply_to(node.clone_from_root()).result.get_root())
@@ -546,9 +547,21 @@ def c13(ctx):
         if rng.random() < 0.3:
             a = core.tuple_to_py(t)
             dup_roots.append(X.AddExpression(X.MultiplyExpression(a, a.clone()), a.clone()))
-    for root in dup_roots[: 3000 if quick else 60000]:
+    for root in dup_roots[: 1200 if quick else 60000]:
         objs = core.inorder(root)
         sig = expr_signature(root)
+        # a tree produced by a rewrite clones like any other
+        try:
+            c = root.clone()
+            if expr_signature(c) != sig:
+                bad.append({"tree": str(root), "problem": "clone of a rewritten tree differs from it", "clone": str(c),
+                            "after_rewrite": True})
+                continue
+            if {id(o) for o in objs} & {id(o) for o in objects(c)}:
+                bad.append({"tree": str(root), "problem": "clone of a rewritten tree shares objects", "after_rewrite": True})
+        except Exception as e:  # noqa
+            bad.append({"tree": str(root), "problem": "clone raised " + type(e).__name__, "after_rewrite": True})
+            continue
         for k, node in enumerate(objs):
             try:
                 got = node.clone_from_root()
@@ -566,11 +579,40 @@ def c13(ctx):
                             "want_path": path_to(node), "got_path": path_to(got)})
                 break
     ctx.notes["trees_with_duplicate_ids"] = len(dup_roots)
-    # generic shapes
-    for s in all_shapes(5 if quick else 7):
+    # generic shapes: also against the pointer-level clone model (cells of the copy, by pre-order)
+    drv = core.Driver()
+    gshapes = all_shapes(5 if quick else 7)
+    gans = drv.ask([f"cloneheap {shape_wire(s)}" for s in gshapes])
+    gdiffs = []
+    for s, a in zip(gshapes, gans):
         nodes = {}
         root = build(s, nodes)
         c = root.clone()
+        # pre-order numbering of the copy's objects from base = max id + 1, as the model allocates
+        base = max(ids_of(s)) + 1
+        order_objs = []
+
+        def pre(o):
+            if o is None:
+                return
+            order_objs.append(o)
+            pre(o.left)
+            pre(o.right)
+        pre(c)
+        addr = {id(o): base + k for k, o in enumerate(order_objs)}
+        real_cells = {addr[id(o)]: tuple(addr.get(id(x)) if x is not None else None for x in (o.left, o.right, o.parent))
+                      for o in order_objs}
+        toks = a.split()
+        try:
+            ci, oi = toks.index("cells"), toks.index("orig")
+            mcells = {}
+            for cc in toks[ci + 1: oi]:
+                k, l, r, p = cc.split(":")
+                mcells[int(k)] = tuple(None if x == "-" else int(x) for x in (l, r, p))
+            if mcells != real_cells:
+                gdiffs.append({"shape": shape_wire(s), "impl_cells": str(real_cells), "model_cells": str(mcells)})
+        except ValueError:
+            gdiffs.append({"shape": shape_wire(s), "model": a[:200]})
         rev_ids = lambda n: None if n is None else (n.id, rev_ids(n.left), rev_ids(n.right))  # noqa: E731
         if rev_ids(c) != rev_ids(root):
             bad.append({"shape": shape_wire(s), "problem": "generic clone differs"})
@@ -583,7 +625,7 @@ def c13(ctx):
     ctx.notes["generator"] = {"expression_trees": len(trees)}
     for t in trees[:: max(1, len(trees) // 6)][:6]:
         ctx.sample({"tree": core.tuple_str(t)})
-    finish(ctx, [("clone", bad)], [], "cloning yields an identical independent tree and locates the cloned node")
+    finish(ctx, [("clone", bad)], [("cloneheap", gdiffs)], "cloning yields an identical independent tree and locates the cloned node")
 
 
 CHECKS = {"C13": c13, "C14": c14, "C15": c15}
